@@ -1099,11 +1099,16 @@ class Tie:
         for cf in (0, 1):
             scen.append((cf, base))
             scen.append((cf, [("r", 8, 2), ("cbfail", "seek", 1), ("r", 15, 1), ("r", 16, 2), ("r", 14, 7), ("cbfail", "read", 1), ("r", 0, 5), ("r", 0, 5), ("r", 2, 9)]))
+        # round 3: a read callback that fails AFTER transferring part of the bytes (its read head has moved: fread() leaves the file position
+        # indeterminate after an error, a read(2) loop has consumed what it got).  Key C20-read-failure-keeps-position.
+        for cf in (0, 1):
+            scen.append((cf, [("cbfail", "readpart", 3), ("r", 0, 7), ("r", 0, 7), ("r", 7, 7), ("r", 0, 7)]))
+            scen.append((cf, [("r", 7, 2), ("cbfail", "readpart", 1), ("r", 9, 5), ("r", 9, 5), ("r", 10, 11), ("cbfail", "readpart", 2), ("r", 0, 21), ("r", 3, 4), ("r", 3, 18)]))
         for _ in range(6 if ctx.quick else 60):
             cmds = []
             for _ in range(rng.randint(3, 9)):
                 if rng.random() < 0.35:
-                    cmds.append(("cbfail", rng.choice(["seek", "seek", "read"]), rng.choice([1, 1, 2, 3])))
+                    cmds.append(("cbfail", rng.choice(["seek", "seek", "read", "readpart"]), rng.choice([1, 1, 2, 3])))
                 o = rng.randint(0, 21)
                 cmds.append(("r", o, rng.randint(0, 21 - o)))
             scen.append((rng.choice([0, 1]), cmds))
@@ -1119,19 +1124,39 @@ class Tie:
                 if rc != 0 or len(rl) != len(reads):
                     raise Fail("crash / hang (rc=%d) with a callback source that fails transiently: %s" % (rc, cerr[-300:]))
                 failed_before = False
+                partial = any(c[0] == "cbfail" and c[1] == "readpart" for c in cmds)
+                done = " ; ".join("%s %s %s" % c for c in cmds)
+                # armed_before[j]: an injected fault is pending when read j starts (so it may legitimately fail)
+                armed, armed_before, jj = 0, [], 0
+                for c in cmds:
+                    if c[0] == "cbfail":
+                        armed = 1
+                    else:
+                        armed_before.append(armed)
+                        armed = int(kv(rl[jj])[2].get("armed", "1")) if jj < len(rl) else 1
+                        jj += 1
                 for j, (rd, ln) in enumerate(zip(reads, rl)):
                     d = kv(ln)[2]
                     off, n = rd[1], rd[2]
                     if d["ret"].startswith("E"):
+                        if failed_before and not armed_before[j]:
+                            # the faults are transient and none is pending: the archive is valid, the source works - the call must succeed
+                            self.report(dict(replay, failing_read=j, observed=ln[:300]),
+                                        "a read on a VALID archive fails with %s although no injected fault is pending any more: an earlier call failed with a transient "
+                                        "I/O error and the reader goes on from a position it no longer has. Repro: content 30..44, initCStream(level 3, checksumFlag %d, "
+                                        "maxFrameSize 7), callback access, commands [%s] (cbfail readpart k = the k-th next read callback transfers half of the bytes, "
+                                        "advances and fails once): read #%d decompress(dst, %d, %d)" % (d["ret"], cf, done, j, n, off),
+                                        key=(self.K_READFAIL if partial else None))
+                            break
                         failed_before = True
                         continue
                     if d["ret"] != str(n) or d.get("data", "-") != (x[off:off + n].hex() or "-"):
-                        done = " ; ".join("%s %s %s" % c for c in cmds)
                         self.report(dict(replay, failing_read=j, observed=ln[:300]),
                                     "a read after a transient I/O error of the callback source returns success with wrong bytes. Repro: content 30..44, initCStream(level 3, checksumFlag %d, maxFrameSize 7), callback access, "
-                                    "commands [%s] (cbfail seek k = the k-th next seek callback fails once): read #%d decompress(dst, %d, %d) returns %s "
+                                    "commands [%s] (cbfail seek k = the k-th next seek callback fails once; cbfail readpart k = the k-th next read callback transfers half "
+                                    "of the bytes, advances and fails once): read #%d decompress(dst, %d, %d) returns %s "
                                     "with bytes %s, content is %s" % (cf, done, j, n, off, d["ret"], d.get("data"), x[off:off + n].hex()),
-                                    )
+                                    key=(self.K_READFAIL if partial else None))
                         break
                 ctx.count(("io-fault", cf, any(c[0] == "cbfail" and c[1] == "seek" for c in cmds), any(c[0] == "cbfail" and c[1] == "read" for c in cmds)))
             except Fail as e:
@@ -1427,6 +1452,66 @@ class Tie:
                 self.report(replay, "ZSTD_seekable_initCStream on an object whose previous session was abandoned (%s): %s" % (pre, e))
             except (IndexError, KeyError, ValueError, OSError) as e:
                 self.report(replay, "initCStream twice: unparsable output (%r)" % (e,), no_input=True)
+
+    # ------------------------------------------------------------------ round 3
+    K_NFWRAP = "C20-loader-numframes-wraps-table-size"
+    K_READFAIL = "C20-read-failure-keeps-position"
+
+    def phase_r3_numframes_wrap(self):
+        """Number_Of_Frames values for which the loader's U32 arithmetic sizePerEntry * numFrames + 17 wraps onto the size of the table the
+        file really holds (numFrames = k + m * 2^29 without checksums, k + m * 2^30 with): the table is malformed (it announces more
+        entries than the skippable frame has room for) and must be refused like every other inconsistent count, BEFORE the loader asks for
+        24 * (numFrames + 1) bytes.  Run under a 3 GiB address-space cap: a loader that passed its checks shows up as memory_allocation
+        (or, without the cap, as success with 2^29 + k fabricated entries after touching 12 GiB)."""
+        ctx = self.ctx
+        x = bytes(range(0x30, 0x30 + 10))
+        xp = self.blob(x, "x")
+        for cf, mfs in ((0, 5), (1, 5), (0, 10), (1, 3)):
+            ap = self.path("r3nf_%d_%d.zst" % (cf, mfs))
+            rc0, cl0, _ = self.run_c("\n".join(["content_file %s" % xp, "cinit 3 %d %d" % (cf, mfs), "finish 1000 1000", "save %s" % ap]) + "\n", timeout=30)
+            arch = open(ap, "rb").read() if rc0 == 0 and os.path.exists(ap) else b""
+            if len(arch) < 17:
+                self.report(dict(kind="r3", scenario="numframes-wrap", cf=cf, mfs=mfs, rc=rc0, seed=ctx.seed), "could not build the base archive", no_input=True)
+                continue
+            k = struct.unpack("<I", arch[-9:-5])[0]
+            step = (1 << 30) if cf else (1 << 29)
+            # wrapping counts, and - as controls - inconsistent counts that do not wrap onto the real size
+            cands = [(k + m * step, True) for m in ((1, 2, 3) if cf else (1, 2, 7))] + [(k + 1, False), (k + step - 1, False), (k + step + 1, False), ((1 << 27) + 1, False)]
+            for (nf, wraps) in cands:
+                for mode in (("mem", "file", "cb") if wraps and nf == k + step else ("mem",)):
+                    text = ["archive_file %s" % ap, "setbytes %d %s" % (len(arch) - 9, struct.pack("<I", nf).hex()), "aslimit 3072",
+                            "open %s %s" % (mode, self.path("r3nf.f") if mode == "file" else ""), "close"]
+                    rc, cl, cerr = self.run_c("\n".join(text) + "\n", timeout=60, linebuf=True)
+                    replay = dict(kind="r3", scenario="numframes-wrap", cf=cf, mfs=mfs, numFrames=nf, real_entries=k, mode=mode, archive_hex=arch.hex(),
+                                  commands=text, rc=rc, seed=ctx.seed)
+                    try:
+                        ol = [l for l in cl if l.startswith("open")]
+                        if rc != 0 or not ol:
+                            raise Fail("crash / no answer (rc=%d): %s" % (rc, (cerr or "")[-300:]))
+                        ret = kv(ol[0])[2].get("ret", "?")
+                        if not ret.startswith("E") or ret == "E64":
+                            self.report(replay, "a %d-byte archive holding %d seek-table entries whose footer says Number_Of_Frames = %d (= %d + %d * 2^%d) passes every "
+                                        "check of ZSTD_seekable_loadSeekTable (%s access): U32 tableSize = %d * numFrames wraps onto the size of the real table, so "
+                                        "Frame_Size + 8 == frameSize holds; ZSTD_seekable_init* then asks for 24 * (numFrames + 1) = %.1f GiB (under a 3 GiB address-space "
+                                        "cap: %s; without the cap it returns 0 with %d entries, all but %d fabricated from stale inBuff content). A malformed table must be "
+                                        "an error (any other inconsistent count gives prefix_unknown); the writer refuses more than ZSTD_SEEKABLE_MAXFRAMES = 2^27 frames, "
+                                        "the loader never looks at that limit" % (len(arch), k, nf, k, (nf - k) // step, 30 if cf else 29, mode, 12 if cf else 8,
+                                                                                  24.0 * (nf + 1) / (1 << 30), "memory_allocation" if ret == "E64" else "ret=" + ret, nf, k),
+                                        key=self.K_NFWRAP)
+                        elif mode == "mem":
+                            # lock-step with the model's loader on the same bytes (fix 56d8861: numFrames > MAXFRAMES -> corruption_detected
+                            # before any size arithmetic; the other inconsistent counts fail where the model says)
+                            mod = bytearray(arch)
+                            mod[len(arch) - 9:len(arch) - 5] = struct.pack("<I", nf)
+                            ml = self.run_m("# case k0\nloadfile %s\n" % self.blob(bytes(mod), "nfw"), timeout=120)
+                            ml0 = [l for l in ml if l.startswith("load")][0]
+                            if not ml0.startswith("load E") or "E" + ml0[len("load E"):] != ret:
+                                raise Fail("ZSTD_seekable_initBuff returns %s, the model's loader '%s'" % (ret, ml0))
+                        ctx.count(("r3-nfwrap", cf, wraps, mode, ret))
+                    except Fail as e:
+                        self.report(replay, "footer with Number_Of_Frames = %d over %d real entries: %s" % (nf, k, e))
+                    except (IndexError, KeyError, ValueError) as e:
+                        self.report(replay, "numFrames wrap: unparsable output (%r)" % (e,), no_input=True)
 
     def phase_r2_raw_frames(self):
         """Archives assembled with the documented raw API (independently compressed frames + ZSTD_seekable_logFrame +
@@ -1736,6 +1821,8 @@ def replay(ctx):
     elif kind == "r2":
         {"reinit-modes": t.phase_r2_reinit_modes, "checksum-flag": t.phase_r2_checksum_flag, "beyond-end": t.phase_r2_beyond_end,
          "raw-frames": t.phase_r2_raw_frames, "misc": t.phase_r2_misc}.get(rp.get("scenario"), t.phase_r2_endframe_pending)()
+    elif kind == "r3":
+        {"numframes-wrap": t.phase_r3_numframes_wrap}.get(rp.get("scenario"), t.phase_r3_numframes_wrap)()
     elif kind == "corrupt" and rp.get("archive_hex") is not None:
         v = dict(s=None, arch=bytes.fromhex(rp["archive_hex"]), cls="J", note=rp.get("note", ""), log=[], cf=0, id="k0", mode=rp.get("mode") or "mem",
                  reads=[tuple(r) for r in rp.get("reads", [])])
@@ -1767,7 +1854,7 @@ def run(ctx):
     r = ctx.prove()
     t = Tie(ctx, rng)
     import time as _time
-    for ph in (t.phase_rawtable, t.phase_overlong_frame, t.phase_short_frame, t.phase_io_fault, t.phase_reinit, t.phase_r2_endframe_pending, t.phase_r2_reinit_modes, t.phase_r2_checksum_flag, t.phase_r2_beyond_end, t.phase_r2_misc, t.phase_r2_raw_frames, t.phase_archives, t.phase_corrupt, t.phase_maxframes):
+    for ph in (t.phase_rawtable, t.phase_overlong_frame, t.phase_short_frame, t.phase_io_fault, t.phase_reinit, t.phase_r2_endframe_pending, t.phase_r2_reinit_modes, t.phase_r2_checksum_flag, t.phase_r2_beyond_end, t.phase_r2_misc, t.phase_r2_raw_frames, t.phase_r3_numframes_wrap, t.phase_archives, t.phase_corrupt, t.phase_maxframes):
         t0 = _time.time()
         ph()
         core.log("C20 %s: %.1fs (evaluations so far %d)" % (ph.__name__, _time.time() - t0, ctx.cov["evaluations"]))
